@@ -597,7 +597,7 @@ class History(Driver):
             "w_id must equal the reference serialisation of the current fields (and of a fresh object built from them); "
             "non-trivial = history that switches between witness and no witness")
 
-    OPS = ["observe", "w0=x", "w0=none", "w1=ex:set_witness", "w1=none:set_witness", "lock+1", "add-output"]
+    OPS = ["observe", "w0=x", "w0=none", "w1=ex:set_witness", "w1=none:set_witness", "lock+1", "add-output", "w1.append-in-place"]
 
     def __init__(self, tier, seed):
         Driver.__init__(self, tier, seed)
@@ -640,6 +640,13 @@ class History(Driver):
                 elif op == "w1=none:set_witness":
                     tx.set_witness(1, [])
                     model["ins"][1]["witness"] = []
+                elif op == "w1.append-in-place":
+                    w = tx.txs_in[1].witness
+                    if isinstance(w, list):
+                        w.append(b"\x09")                      # mutate the stack object itself
+                    else:
+                        tx.txs_in[1].witness = list(w) + [b"\x09"]
+                    model["ins"][1]["witness"] = list(model["ins"][1]["witness"]) + [b"\x09"]
                 elif op == "lock+1":
                     tx.lock_time += 1
                     model["lock_time"] += 1
@@ -655,6 +662,16 @@ class History(Driver):
                 ncalls += 4
             except Exception as e:
                 return BAD("history-raises", "operation %r works" % op, "step %d: %s" % (step, exc(e)), clause="history-raises", n=ncalls)
+            # an unrelated transaction built afterwards must not have picked anything up (state shared between objects)
+            try:
+                other_model = ref_tx(simple_tx_desc(n_in=1, n_out=1, salt=9))
+                other = build_tx(T, other_model).as_bin()
+                reparsed = T.from_bin(wire.ser_tx(other_model)).as_bin()
+            except Exception as e:
+                return BAD("history-raises", "a fresh transaction can be built", exc(e), clause="history-raises", n=ncalls)
+            if other != wire.ser_tx(other_model) or reparsed != wire.ser_tx(other_model):
+                return BAD("history-leaks", "a fresh legacy transaction serialises as %s" % short(wire.ser_tx(other_model)),
+                           "built: %s parsed+reserialised: %s (after %r on another object)" % (short(other), short(reparsed), op), clause="history-leak", n=ncalls, step=step)
             if got != want or hexform != want[0].hex():
                 what = "bytes" if got[0] != want[0] else ("id" if got[1] != want[1] else ("w_id" if got[2] != want[2] else "hex"))
                 return BAD("history-differs", "after %r: %s follows the current fields (%s)" % (op, what, short(want[0])),
